@@ -338,7 +338,7 @@ func ruleUpsidedownWriters(r *Report) {
 		// that contains the access must itself be created after the Lock
 		accesses := callsMatching(info, fi.Decl.Body, func(f *types.Func) bool {
 			q := qname(f)
-			return strings.HasSuffix(q, "upsidedown_store_api.KVStore.Reader") || strings.HasSuffix(q, "upsidedown_store_api.KVStore.Writer") ||
+			return strings.HasSuffix(q, "upsidedown_store_api.(KVStore).Reader") || strings.HasSuffix(q, "upsidedown_store_api.(KVStore).Writer") ||
 				q == blevePath+"/"+ud+".backIndexRowForDoc" || q == blevePath+"/"+ud+".(*UpsideDownCouch).UpdateWithAnalysis"
 		})
 		for _, c := range accesses {
